@@ -100,6 +100,8 @@ std::string bin(regs_t& r, std::string const& op)
             d = static_cast<TD>(a - b);
         } else if (op == "mul") {
             d = static_cast<TD>(a * b);
+        } else if (op == "mod") {
+            d = static_cast<TD>(a % b);
         } else {
             d = static_cast<TD>(a / b);
         }
@@ -149,6 +151,8 @@ std::string cas(regs_t& r, std::string const& op)
             d -= a;
         } else if (op == "mul") {
             d *= a;
+        } else if (op == "mod") {
+            d %= a;
         } else {
             d /= a;
         }
@@ -410,7 +414,7 @@ int main(int argc, char** argv)
                 std::string op = field_s(o, "op");
                 int a = field_i(o, "a"), d = field_i(o, "d");
                 std::string va = raw_of(r, a), before = raw_of(r, d);
-                if (op == "div" && va == "[0]") {
+                if ((op == "div" || op == "mod") && va == "[0]") {
                     continue;
                 }
                 std::string o2 = cas_ad(r, op, a, d);
@@ -421,7 +425,7 @@ int main(int argc, char** argv)
                 std::string op = field_s(o, "op");
                 int a = field_i(o, "a"), b = field_i(o, "b"), d = field_i(o, "d");
                 std::string va = raw_of(r, a), vb = raw_of(r, b), before = raw_of(r, d);
-                if (op == "div" && vb == "[0]") {
+                if ((op == "div" || op == "mod") && vb == "[0]") {
                     continue;      // zero divisors are outside the domain
                 }
                 std::string o2 = bin_abd(r, op, a, b, d);
